@@ -499,13 +499,15 @@ func families(thorough bool) []dfGraph {
 		// processors whose input and output selectors have different widths (3 ports need 2 bits, 1-2 ports need 1)
 		{Name: "join3", Procs: []dfProc{{In: []string{"i0", "i1", "i2"}, Out: 1}}, ExtIn: 3, ExtOut: []string{"p0o0"}},
 		{Name: "three-outputs", Procs: []dfProc{{In: []string{"i0"}, Out: 3}}, ExtIn: 1, ExtOut: []string{"p0o0", "p0o1", "p0o2"}},
+		// a join whose two inputs come from other PROCESSORS (their valid lines fall when those processors move on,
+		// not when the environment decides)
+		{Name: "join-of-pipes", Procs: []dfProc{{In: []string{"i0"}, Out: 1}, {In: []string{"i1"}, Out: 1}, {In: []string{"p0o0", "p1o0"}, Out: 1}}, ExtIn: 2, ExtOut: []string{"p2o0"}},
 	}
 	if thorough {
 		gs = append(gs,
 			dfGraph{Name: "fanout-procs", Procs: []dfProc{{In: []string{"i0"}, Out: 1}, {In: []string{"p0o0"}, Out: 1}, {In: []string{"p0o0"}, Out: 1}}, ExtIn: 1, ExtOut: []string{"p1o0", "p2o0"}},
 			dfGraph{Name: "diamond", Procs: []dfProc{{In: []string{"i0"}, Out: 2}, {In: []string{"p0o0"}, Out: 1}, {In: []string{"p0o1"}, Out: 1}, {In: []string{"p1o0", "p2o0"}, Out: 1}}, ExtIn: 1, ExtOut: []string{"p3o0"}},
 			dfGraph{Name: "pipe3", Procs: []dfProc{{In: []string{"i0"}, Out: 1}, {In: []string{"p0o0"}, Out: 1}, {In: []string{"p1o0"}, Out: 1}}, ExtIn: 1, ExtOut: []string{"p2o0"}},
-			dfGraph{Name: "join-of-pipes", Procs: []dfProc{{In: []string{"i0"}, Out: 1}, {In: []string{"i1"}, Out: 1}, {In: []string{"p0o0", "p1o0"}, Out: 1}}, ExtIn: 2, ExtOut: []string{"p2o0"}},
 		)
 	}
 	return gs
